@@ -29,7 +29,7 @@ def genClip (sr : T4 K K K K → List K) (sb : K → K → K → K → K → Lis
 theorem sub01_of_desc {d : SectionT K} (h : Desc (section_new (0.0 : K) (1.0 : K)) d) : Sub01 d := desc_range h
 
 /-- **A REPORTED SELF-INTERSECTION IS A PAIR OF NEARBY POINTS OF THE CURVE** (generated recursion + generated clipper, any root
-    solvers, any depths): an answer `(t1, t2)` that is neither marker satisfies one of
+    solvers, any depths): an answer `(t1, t2)` that is not the out-of-fuel marker satisfies one of
     1. `|C(t1) − C(t2)|² ≤ 12·accuracy²`,
     2. `C(t1)`, `C(t2)` within `max(accuracy, 0.05)`,
     3. `C(t1)`, `C(t2)` `is_near_to` each other at `accuracy` (the clipper found nothing; the far ends of the two halves),
@@ -38,7 +38,7 @@ theorem reported_self_intersection_is_close (hM : 1 ≤ (fmaxval : K)) (hm : (fm
     (sr : T4 K K K K → List K) (sb : K → K → K → K → K → List K) (w1 w2 w3 w4 : V2 K) (acc : K) (hacc : 0 ≤ acc)
     (depth fuel : Nat) (onLL onFuel : Option (T2 K K)) (r : T2 K K)
     (h : findSelfIntersection (genClip sr sb w1 w2 w3 w4 depth) onLL onFuel fuel w1 w2 w3 w4 acc = some r)
-    (hLL : onLL ≠ some r) (hF : onFuel ≠ some r) :
+    (hF : onFuel ≠ some r) :
     dist2 (curve_point_at_pos w1 w2 w3 w4 r.t0) (curve_point_at_pos w1 w2 w3 w4 r.t1) ≤ 12 * (acc * acc) ∨
     Within (max acc (0.05 : K)) (curve_point_at_pos w1 w2 w3 w4 r.t0) (curve_point_at_pos w1 w2 w3 w4 r.t1) ∨
     is_near_to (curve_point_at_pos w1 w2 w3 w4 r.t0) (curve_point_at_pos w1 w2 w3 w4 r.t1) acc = true ∨
@@ -51,9 +51,8 @@ theorem reported_self_intersection_is_close (hM : 1 ≤ (fmaxval : K)) (hm : (fm
   dsimp only at h
   split at h
   · rcases in_loop_cases (genClip sr sb w1 w2 w3 w4 depth) onLL onFuel w1 w2 w3 w4 acc fuel (section_new (0.0 : K) (1.0 : K))
-      with hf | ⟨d, hd, ⟨hll, _, _⟩ | ⟨ht, _, _⟩⟩
+      with hf | ⟨d, hd, ht, _⟩
     · exact absurd (hf.symm.trans h) hF
-    · exact absurd (hll.symm.trans h) hLL
     · rcases terminal_some_spec _ w1 w2 w3 w4 d acc r (ht.symm.trans h) with ⟨_, hn, hr'⟩ | ⟨p, hp, hr'⟩
       · subst hr'
         right; right; left
